@@ -112,6 +112,9 @@ def guard_exempt(func, sub):
 
 
 def run(ctx):
+    # residues are what the altloc policies choose within and what separates intra- from inter-residue bonds
+    from .C17 import residue_definition_rule
+    residue_definition_rule(ctx, "R4.residue-definition")
     s = ctx.src(CONV)
     # reading must not consume what the caller passed (`extra_fields` is emptied by the annotation filler: it has to be a copy),
     # writing changes the file object only
